@@ -6,7 +6,8 @@
    Side conditions used below (each is a decidable predicate on the history, evaluated step by step):
      race_free    no successful page-out callback for a Dataset object purged meanwhile   (C08, finding readd-during-pageout)
      clean        additionally: no page-out job issued for a purged Dataset object finds a segment under its name
-                  (the same finding, seen at the io half), and writers close segments of the granted size
+                  (the same finding, seen at the attach+write or at the unlink step of the job), and writers close segments of
+                  the granted size
      unhurried    no writer is slower than STALE_CREATE while an eviction round runs       (finding stale-writer-readable) *)
 From Coq Require Import List NArith ZArith String Bool Sorted Permutation.
 From EKW Require Import Shm.Lottery Shm.LotteryProofs Shm.Manager Shm.ManagerProofs Shm.ManagerLive Shm.ManagerBytes.
@@ -160,7 +161,7 @@ Proof. exact lock_leak_before_fix. Qed.
 Definition ex9 : list op := [
   Add 1%N 2%N 1; Write 1%N [10;11]%N; Close 1%N None; Add 2%N 2%N 2; Write 2%N [20;21]%N; Close 2%N None;
   Get 1%N 3 [1%N]; Get 2%N 4 [2%N]; Close 2%N (Some 2%N);
-  Add 3%N 2%N 5; JobIo 0%N false; JobCb 0%N; Add 3%N 2%N 6; Write 3%N [30;31]%N; Close 3%N None;
+  Add 3%N 2%N 5; JobIo 0%N false; JobUnlink 0%N; JobCb 0%N; Add 3%N 2%N 6; Write 3%N [30;31]%N; Close 3%N None;
   Purge 1%N; Close 1%N (Some 1%N);
   Get 2%N 7 [3%N]; JobIo 1%N false; JobCb 1%N; Get 2%N 8 [3%N] ].
 
@@ -195,16 +196,16 @@ Example C09_no_evict_under_fresh_reader_nonvacuous :
 Proof. vm_compute. repeat split; reflexivity. Qed.
 
 Example C09_purge_nonvacuous :
-  (let s := exec (init 4) (firstn 15 ex9) in
-   exists ds, lookup 1%N (dsets s) = Some ds /\ d_readers ds = [(1%N, 3)] /\ d_status ds = InMemory) /\
   (let s := exec (init 4) (firstn 16 ex9) in
+   exists ds, lookup 1%N (dsets s) = Some ds /\ d_readers ds = [(1%N, 3)] /\ d_status ds = InMemory) /\
+  (let s := exec (init 4) (firstn 17 ex9) in
    lookup 1%N (segs s) = Some [10;11]%N /\ exists ds, lookup 1%N (dsets s) = Some ds /\ d_delayed ds = true) /\
-  (let s := exec (init 4) (firstn 17 ex9) in lookup 1%N (segs s) = None /\ lookup 1%N (dsets s) = None /\ free s = 2).
+  (let s := exec (init 4) (firstn 18 ex9) in lookup 1%N (segs s) = None /\ lookup 1%N (dsets s) = None /\ free s = 2).
 Proof. vm_compute. repeat split; try reflexivity; eexists; repeat split; reflexivity. Qed.
 
 Example C09_reachability_nonvacuous :
   (let s := exec (init 4) (firstn 10 ex9) in lock s = true /\ po_pending s = 1) /\
-  (let s := exec (init 4) (firstn 12 ex9) in lock s = false /\ po_pending s = 0 /\ free s = 2) /\
+  (let s := exec (init 4) (firstn 13 ex9) in lock s = false /\ po_pending s = 0 /\ free s = 2) /\
   (let s := exec (init 4) (firstn 9 ex9) in
    LInv s /\ lock s = false /\ exists ds, lookup 2%N (dsets s) = Some ds /\ is_pageoutable 5 ds = true).
 Proof.
